@@ -3,6 +3,7 @@
 CLUSTERS = {
     # name -> extraction file (coq/theories/Extract), extracted module, entry point
     "vals": {"extract": "ExtractVals.v", "ml": "model_vals", "entry": "main_vals"},
+    "url": {"extract": "ExtractUrl.v", "ml": "model_url", "entry": "main_url"},
 }
 
 COMMON_TB = [
@@ -34,5 +35,59 @@ PROPS = {
         "technique": "Coq proof over a model regenerated from source (translator) + differential run of the extracted model",
         "assumptions": ["callbacks are pure observers (they do not mutate the carrier while it is being cleared)",
                         "values behind pointers/maps/interfaces are opaque payloads; only nil-ness and identity matter to the accessors"],
+    },
+    "C11": {
+        "props": "theories/Props/C11.v", "cluster": "url", "gen": "url",
+        "n": {"quick": 1500, "thorough": 20000}, "oracle_n": {"quick": 900, "thorough": 20000},
+        "rule": "correspondence: the url cluster (normalizeBase on ~40 random compositions of the spelling rewrites per location x 9 "
+                "locations + hand-picked edge strings; path.Clean/Dir/Join exhaustively over <=4 segments of {a,.,..,'',b.c}; "
+                "normalizeURI, jsonreference.New, rebase/denormalize streams shared with C12/C13); oracle: normalizeBase equal on "
+                "equivalent spellings, idempotent, canonical; non-trivial = spelling differs from the canonical location",
+        "trusted_base": COMMON_TB + ["Base/Url.v is a hand-written model of net/url Parse/String (subset: no userinfo, IPv6, opaque), "
+                                     "package path and normalizer.go; tied to the code by the differential run only",
+                                     "filepath.Abs = Clean/Join with the working directory (non-Windows)"],
+        "level_text": "Coq theorems (Props/C11.v): normalizeBase on parsed URLs is idempotent and yields scheme + absolute cleaned "
+                      "path + no fragment (+ no query for files); path.Clean is idempotent on absolute paths (strings); inserting './', "
+                      "'//' or 'x/../' at any position never changes the cleaned path (all paths, all positions). The string<->URL "
+                      "conversion (net/url) is modelled and run against the implementation, not proved.",
+        "level_note": "Partial: theorems are on parsed URLs and segment lists; parse/print of net/url is validated by the differential "
+                      "run (tens of thousands of strings per run) — see DESIGN.md section 9. End-to-end equality of expansion results "
+                      "under respelling is checked on the implementation by the C02 harness stream.",
+        "technique": "Coq proof about a hand-written executable model + differential run of the extracted model against Go",
+        "assumptions": ["the process working directory is absolute", "inputs outside the modelled URL grammar are reported as unsupported and counted"],
+    },
+    "C12": {
+        "props": "theories/Props/C12.v", "cluster": "url", "gen": "url",
+        "n": {"quick": 1500, "thorough": 20000}, "oracle_n": {"quick": 2000, "thorough": 50000},
+        "rule": "correspondence: normalizeURI on every reference of <=2 (quick) / <=4 (thorough) directory segments over "
+                "{a, b.c, ., .., %20x, é} + file name, relative and root-relative, with/without fragment, against 9 bases; the model's "
+                "RFC 3986 resolver against net/url.ResolveReference; oracle: normalizeURI vs ResolveReference on the implementation "
+                "(exhaustive <=3 segments + random longer ones with escapes); non-trivial = non-empty reference",
+        "trusted_base": COMMON_TB + ["Base/Url.v (hand model of net/url + path + normalizeURI) and Base/Rfc3986.v (RFC 3986 5.2 written from "
+                                     "the RFC text) — both run against the implementation / net/url.ResolveReference"],
+        "level_text": "Coq theorems (Props/C12.v): on segment lists, RFC 3986 remove_dot_segments and Go's Clean compute the same path "
+                      "for every in-scope reference (unbounded: any length, any number of . and .., climbing above the root); the "
+                      "string-level Go model and the string-level RFC transcription coincide with the segment machines on a bounded "
+                      "domain proved by evaluation (bound in the statement); escape/unescape round trip.",
+        "level_note": "Partial: the unbounded theorem is on segment lists; strings are linked by a bounded evaluation proof and by the "
+                      "differential run. Known finding F12 (escapes decoding to '/' or '.') is carved out and listed.",
+        "technique": "Coq proof (segment-level, unbounded) + bounded evaluation proof + differential run",
+        "assumptions": ["base locations are canonical (output of normalizeBase)"],
+    },
+    "C13": {
+        "props": "theories/Props/C13.v", "cluster": "url", "gen": "url",
+        "n": {"quick": 1500, "thorough": 20000}, "oracle_n": {"quick": 1500, "thorough": 30000},
+        "rule": "correspondence: jsonreference.New/String/flags on every string of <=3 (quick) / <=4 (thorough) tokens from an "
+                "18-token URL alphabet + random structured references; oracle: print/parse idempotence, flags, JSON and gob round "
+                "trips, JSON shape on the implementation; non-trivial = non-empty string",
+        "trusted_base": COMMON_TB + ["Base/Url.v: hand model of url.Parse/String and jsonreference (v0.21.0) New/NormalizeURL"],
+        "level_text": "Coq theorems (Props/C13.v): canonicalisation of a parsed URL is idempotent for hosts with at most one port; the "
+                      "five flags, IsCanonical and IsRoot are functions of the canonical URL; creating a reference from a reference's URL "
+                      "gives the same reference; escape/unescape round trip. JSON/gob codecs and the string<->URL conversion are "
+                      "checked on the implementation (oracle) and by the differential run.",
+        "level_note": "Partial: proved on parsed URLs; net/url's string conversion, the JSON and gob codecs of Ref are validated by "
+                      "running model and implementation, not proved.",
+        "technique": "Coq proof about a hand-written executable model + differential run + property oracle on the implementation",
+        "assumptions": ["authority is a host with at most one port (the property's quantifier)"],
     },
 }
